@@ -4,6 +4,7 @@ CONSTANTS
   Dpbs = {4, 8}
   ResizeSet = {1, 2, 3, 10, 20}
   Geos <- OneGeo
+  GdOnly = FALSE
   MaxSteps = 3
   DevTuneMasterOnly = FALSE
   DevFsckIgnoresFeatDiff = FALSE
